@@ -131,15 +131,21 @@ Proof.
   - destruct o; cbn [sem form_ok] in *; try discriminate; contradiction.
 Qed.
 
-(* non-vacuity: " \t V1.0.RC-1 " denotes 1.0rc1; after ">=" it is that version, and 1.0 is in, 1.0b2 out *)
+(* non-vacuity: " \t V1.0.RC-1 " denotes 1.0rc1; after ">=" it is that version, and 1.0 is in, 1.0b2 out;
+   "V01.0" (un-normalised, plain) followed by ".*" after "==" denotes the wildcard 1.0.* : 1.0.7 in, 1.1 out; after "~=" / "!=" likewise accepted *)
 Definition spell_check : bool :=
   let t := [32;9;86;49;46;48;46;82;67;45;49;32] in
-  match Version t, Specifier (op_txt OGe ++ t) with
-  | Some V, Some sp =>
+  let w := [86;48;49;46;48] in
+  match Version t, Specifier (op_txt OGe ++ t), Version w, Specifier (op_txt OEq ++ w ++ [46;42]), Specifier (op_txt OCompat ++ t), Specifier (op_txt ONe ++ t) with
+  | Some V, Some sp, Some W, Some sw, Some sc, Some sn =>
       match interp sp, contains sp None (Some true) [49;46;48], contains sp None (Some true) [49;46;48;98;50] with
       | Some (FVer V'), Ans true, Ans false => VMeaning.str_eqb (vstr V) (vstr V') && VMeaning.str_eqb (vstr V) [49;46;48;114;99;49]
-      | _, _, _ => false end
-  | _, _ => false end.
+      | _, _, _ => false end &&
+      match interp sw, contains sw None (Some true) [49;46;48;46;55], contains sw None (Some true) [49;46;49] with
+      | Some (FWild W'), Ans true, Ans false => VMeaning.str_eqb (vstr W) (vstr W') && VMeaning.str_eqb (vstr W) [49;46;48]
+      | _, _, _ => false end &&
+      match interp sc, interp sn with Some (FVer _), Some (FVer _) => true | _, _ => false end
+  | _, _, _, _, _, _ => false end.
 Example spell_nonvacuous : spell_check = true.
 Proof. vm_compute. reflexivity. Qed.
 Print Assumptions Specifier_of_version.
